@@ -1996,25 +1996,41 @@ func clientWiring(c *Ctx, id string) {
 			}
 		})
 	}
-	// the configured backend is installed exactly when none was supplied
+	// the configured backend is installed exactly when none was supplied (in Start or a helper method it calls)
 	if f := w.Field("", "dcp", "metadata"); f != nil {
 		nStores, bad := 0, ""
-		allInstrs(start, func(in ssa.Instruction) {
-			st, ok := in.(*ssa.Store)
-			if !ok || fieldOfAddr(st.Addr) != f {
-				return
+		unit := map[*ssa.Function]bool{start: true}
+		for g := range w.syncCallees(start, 2, false) {
+			if g.Signature.Recv() != nil && recvTypeName(g.Signature.Recv().Type()) == "dcp" {
+				unit[g] = true
 			}
-			if strings.Contains(w.Origin(st.Val), "recv.metadata") {
-				return // a wrapper around the backend in place (the read-only decorator), not another backend
-			}
-			nStores++
-			if !guardedBy(in.Block(), true, func(v ssa.Value) bool {
+		}
+		knownNil := func(b *ssa.BasicBlock) bool {
+			for _, g := range guardsOf(b) {
+				v, pol := stripNot(g.Cond, g.Branch)
 				eq, isCmp := isNilCompare(v, func(x ssa.Value) bool { return strings.HasSuffix(w.Origin(x), "recv.metadata") })
-				return isCmp && eq
-			}) {
-				bad = w.pos(in.Pos())
+				if isCmp && eq == pol {
+					return true
+				}
 			}
-		})
+			return false
+		}
+		for g := range unit {
+			c.see(g)
+			allInstrs(g, func(in ssa.Instruction) {
+				st, ok := in.(*ssa.Store)
+				if !ok || fieldOfAddr(st.Addr) != f {
+					return
+				}
+				if strings.Contains(w.Origin(st.Val), "recv.metadata") {
+					return // a wrapper around the backend in place (the read-only decorator), not another backend
+				}
+				nStores++
+				if !knownNil(in.Block()) {
+					bad = w.pos(in.Pos())
+				}
+			})
+		}
 		c.Check(nStores > 0 && bad == "", id, "wiring:metadata-default", start.Pos(), fmt.Sprintf("Start installs a backend (%d stores) only under metadata == nil", nStores), "Start installs a checkpoint backend although one may have been supplied (or none at all) "+bad+": SetMetadata's store is replaced, or the client runs without a backend")
 	}
 	// the client object is built on the path on which every step succeeded
